@@ -650,7 +650,7 @@ pub fn run_case(line: &str) -> String {
     });
     let fdl = match created {
         Ok(f) => f,
-        Err(loc) => return format!("PANIC {}", loc),
+        Err(loc) => return format!("A new =;PANIC {}", loc),
     };
     let rate = baud.to_rate();
     let slot_us = (slot_bits as u64 * 1_000_000 / rate).max(1);
